@@ -71,7 +71,8 @@ pub fn determinism(inp: &str, outp: &str) {
                         json!({"outcome": "ok", "hash": felts_to_json(&h), "digest": trace_digest(&trace),
                                "cycles": trace.trace_len_summary().main_trace_len(), "trace_len": trace.get_trace_len(),
                                "out_stack": o.stack().iter().map(|x| u64_to_limbs(*x)).collect::<Vec<_>>(),
-                               "out_addrs": o.overflow_addrs().to_vec(), "rows": rows})
+                               "out_addrs": o.overflow_addrs().to_vec(), "rows": rows,
+                               "memrows": if cfg["rows"].as_bool().unwrap_or(false) { crate::record::chiplet_rows(&trace)["mem"].clone() } else { Value::Null }})
                     }
                     Ok(Err(e)) => json!({"outcome": "err", "err": err_json(&e), "hash": felts_to_json(&h)}),
                     Err(m) => json!({"outcome": "panic", "msg": m}),
